@@ -108,9 +108,20 @@ def _check_path(sx, g, cost, res, tag):
     return path
 
 
-def astar(sx, graph, tie, rao, rep, hsel):
+def _other_problem(sx, g0):
+    """a different shortest-path problem (other graph, unit costs) converted while the first conversion is still in use"""
+    from msdm.core.mdp.deterministic_shortest_path import DeterministicShortestPathProblem as DSP
+    G = graphs('thorough')
+    g1 = next(g for g in G if g[0] == ('unreachable-goal' if g0[0] != 'unreachable-goal' else 'line3'))
+    return DSP.from_mdp(_mk(sx, g1, {(u, v): sx.const(F(7)) for u in range(g1[1]) for v in g1[2][u]}, 'det'))
+
+
+def astar(sx, graph, tie, rao, rep, hsel, interleave=False):
+    """interleave=True: the problem is converted to its shortest-path view explicitly, ANOTHER problem is converted afterwards,
+    and the search then runs on the first view (conversions must be independent of each other)"""
     g = graphs('thorough')[graph]
     name, N, E, goals = g
+    sx.float_slack = 1e-13      # real-code replays: only a handful of additions of the edge costs are involved
     from msdm.algorithms.search import AStarSearch
     cost = {(u, v): sx.real(f"c_{u}_{v}", 0, 10) for u in range(N) for v in E[u]}
     L = LABELS
@@ -124,6 +135,10 @@ def astar(sx, graph, tie, rao, rep, hsel):
             sx.assume(h[u] <= c + h[v])
     with facade(sx, random_only=True):
         mdp = _mk(sx, g, cost, rep)
+        if interleave:
+            from msdm.core.mdp.deterministic_shortest_path import DeterministicShortestPathProblem as DSP
+            mdp = DSP.from_mdp(mdp)
+            _other_problem(sx, g)
         seed = 7 if (tie == 'random' or rao) else None
         with sx.must_not_raise('astar-plan'):
             res = AStarSearch(heuristic_value=lambda s: -h[idx[s]], seed=seed, randomize_action_order=rao,
@@ -144,13 +159,17 @@ def astar(sx, graph, tie, rao, rep, hsel):
     sx.observe('path', [repr(s) for s in res.path])
 
 
-def bfs(sx, graph, rao, rep):
+def bfs(sx, graph, rao, rep, interleave=False):
     g = graphs('thorough')[graph]
     name, N, E, goals = g
     from msdm.algorithms.search import BreadthFirstSearch
     cost = {(u, v): sx.const(F(1)) for u in range(N) for v in E[u]}
     with facade(sx, random_only=True):
         mdp = _mk(sx, g, cost, rep)
+        if interleave:
+            from msdm.core.mdp.deterministic_shortest_path import DeterministicShortestPathProblem as DSP
+            mdp = DSP.from_mdp(mdp)
+            _other_problem(sx, g)
         with sx.must_not_raise('bfs-plan'):
             res = BreadthFirstSearch(seed=3 if rao else None, randomize_action_order=rao).plan_on(mdp)
     paths = simple_paths(N, E, set(goals))
@@ -182,3 +201,5 @@ def jobs(tier):
         for rao in [False, True]:
             for r in reps:
                 yield ('bfs', dict(graph=gi, rao=rao, rep=r), o)
+        yield ('astar', dict(graph=gi, tie='lifo', rao=False, rep=reps[gi % 3 + 1], hsel=1, interleave=True), dict(o, cost=g[1]))
+        yield ('bfs', dict(graph=gi, rao=False, rep=reps[gi % 3 + 1], interleave=True), o)
